@@ -284,6 +284,73 @@ pub fn check_reser(word: u16, id: u16) -> Vec<Finding> {
     out
 }
 
+/// Parse a header, edit it through the public mutators, serialise: only the edited field may change.
+/// `flagop`: 0 none, 1 set_flags(b), 2 remove_flags(b).
+pub fn check_parse_edit(word: u16, new_opcode: Option<u8>, new_rcode: Option<u16>, flagop: u8, b: u16) -> Vec<Finding> {
+    let case = json!({"kind": "parse-edit", "word": word, "opcode": new_opcode, "rcode": new_rcode, "flagop": flagop, "b": b});
+    let h = header(0x4321, word, [0; 4]);
+    let r = guarded(|| -> Option<Result<(Vec<u8>, RefPacket), String>> {
+        let mut p = Packet::parse(&h).ok()?;
+        if let Some(o) = new_opcode {
+            *p.opcode_mut() = lib_opcode(o);
+        }
+        if let Some(rc) = new_rcode {
+            *p.rcode_mut() = lib_rcode(rc);
+        }
+        match flagop {
+            1 => p.set_flags(lib_flags(b)),
+            2 => p.remove_flags(lib_flags(b)),
+            _ => {}
+        }
+        let o = observe(&p);
+        Some(p.build_bytes_vec().map(|v| (v, o)).map_err(|e| format!("{:?}", e)))
+    });
+    let mut out = Vec::new();
+    match r {
+        Err(pn) => out.push(finding(format!("C08|parse-edit|{}", pn.sig()), format!("{:?}", pn), case)),
+        Ok(None) => {}
+        Ok(Some(Err(e))) => out.push(finding("C08|parse-edit|build-error", e, case)),
+        Ok(Some(Ok((bytes, o)))) => {
+            let w = u16::from_be_bytes([bytes[2], bytes[3]]);
+            let exp_flags = match flagop {
+                1 => (word & FLAG_MASK) | b,
+                2 => (word & FLAG_MASK) & !b,
+                _ => word & FLAG_MASK,
+            };
+            if o.flags != exp_flags {
+                out.push(finding("C08|parse-edit|flags-observed", format!("word {:#06x} flagop {} {:#06x}: flags observed {:#06x} expected {:#06x}", word, flagop, b, o.flags, exp_flags), case.clone()));
+            }
+            let mut mask = FLAG_MASK | F_Z;
+            let mut exp = exp_flags;
+            let op = new_opcode.unwrap_or(((word >> 11) & 0xf) as u8);
+            if NAMED_OPCODES.contains(&op) {
+                mask |= 0x7800;
+                exp |= (op as u16) << 11;
+            }
+            let rc = new_rcode.unwrap_or(word & 0xf);
+            if rc <= 10 {
+                mask |= 0xf;
+                exp |= rc;
+            }
+            if (w ^ exp) & mask != 0 {
+                let which = if (w ^ exp) & 0x7800 & mask != 0 {
+                    "opcode-bits"
+                } else if (w ^ exp) & 0xf & mask != 0 {
+                    "rcode-bits"
+                } else {
+                    "flag-bits"
+                };
+                out.push(finding(
+                    format!("C08|parse-edit|{}", which),
+                    format!("parsed word {:#06x}, then opcode:={:?} rcode:={:?} flagop {} {:#06x}: serialised word {:#06x}, expected {:#06x} under mask {:#06x}", word, new_opcode, new_rcode, flagop, b, w, exp, mask),
+                    case,
+                ));
+            }
+        }
+    }
+    out
+}
+
 pub fn run(ctx: &Ctx) {
     ctx.set_rule("exhaustive products over header words/ids/counts, flag-set pairs, named opcode x rcode x flag subsets; non-trivial = header accepted by the parser or packet built (Z-bit words count as trivial rejections)");
     ctx.assume("RFC 1035 4.1.1 bit positions and RFC 2535/4035 AD/CD positions as transcribed in refmodel::packet");
@@ -357,6 +424,35 @@ pub fn run(ctx: &Ctx) {
         t.outcome("algebra");
     });
     ctx.space("algebra: 128 x 128 flag-set pairs x 5 opcodes x 11 rcodes (has_flags on all 128 subsets at opcode 0 / rcode 0)", (128 * 128 * ops.len() * rcs.len()) as u64, "complete");
+    // space 3b: parse, edit through the mutators, serialise
+    par_shards(ctx, &shards, |ws, t: &mut Tally| {
+        for &w in ws.iter() {
+            if w & F_Z != 0 {
+                continue;
+            }
+            for &op in &ops {
+                t.evals += 1;
+                t.nontrivial += 1;
+                ctx.violations(check_parse_edit(w, Some(op), None, 0, 0));
+            }
+            for &rc in &rcs {
+                t.evals += 1;
+                t.nontrivial += 1;
+                ctx.violations(check_parse_edit(w, None, Some(rc), 0, 0));
+            }
+            for &b in ALL_FLAGS.iter().chain([FLAG_MASK, 0].iter()) {
+                for flagop in [1u8, 2] {
+                    t.evals += 1;
+                    t.nontrivial += 1;
+                    ctx.violations(check_parse_edit(w, None, None, flagop, b));
+                }
+            }
+            t.evals += 1;
+            ctx.violations(check_parse_edit(w, Some(ops[(w as usize) % ops.len()]), Some(rcs[(w as usize / 5) % rcs.len()]), 1 + (w & 1) as u8, subs[(w as usize) % 128]));
+        }
+        t.outcome("parse-edit");
+    });
+    ctx.space("parse-edit-serialise: every flag word with Z clear, then each named opcode / each named rcode / set and remove of each single flag, all flags and no flags / one combined edit", 32768 * (5 + 11 + 18 + 1), "complete");
     // space 4: build side
     let mut n = 0u64;
     let mut t = Tally::default();
@@ -401,6 +497,13 @@ pub fn replay(case: &Value) -> Vec<Finding> {
             let c: Vec<u16> = case["counts"].as_array().map(|a| a.iter().map(|x| x.as_u64().unwrap_or(0) as u16).collect()).unwrap_or_default();
             check_peek(g("word") as u16, g("id") as u16, [c[0], c[1], c[2], c[3]], &subs)
         }
+        "parse-edit" => check_parse_edit(
+            g("word") as u16,
+            case["opcode"].as_u64().map(|x| x as u8),
+            case["rcode"].as_u64().map(|x| x as u16),
+            g("flagop") as u8,
+            g("b") as u16,
+        ),
         "algebra" => check_algebra(g("a") as u16, g("b") as u16, g("opcode") as u8, g("rcode") as u16, Some(&subs)),
         "build" => {
             let c: Vec<usize> = case["n"].as_array().map(|a| a.iter().map(|x| x.as_u64().unwrap_or(0) as usize).collect()).unwrap_or_default();
